@@ -7,7 +7,7 @@
 
 exit 0: every discharged obligation held within its bound (KNOWN-FINDING lines allowed)
 exit 1: reproduced, unlisted counterexample -> `VIOLATION property=<id> replay=<path>`
-exit 2: inconclusive (harness does not build against the tree, too little discharged, ...)"""
+exit 2: nothing could be explored (the tree does not build / no obligation discharged); partial runs exit 0 with INCONCLUSIVE lines"""
 import argparse, hashlib, json, os, re, sys, time, traceback
 
 HERE = os.path.dirname(os.path.abspath(__file__))
@@ -142,9 +142,11 @@ def run_property(pid, tier, seed):
             print(f"VIOLATION property={pid} replay={v['replay']}")
             print(f"  obligation {v['obligation']}: {v['what']}")
         return 1
-    if not obligations or n_ok * 2 < len(obligations):
-        print(f"{pid}: fewer than half of the obligations could be discharged -> inconclusive")
+    if not obligations or n_ok == 0:
+        print(f"{pid}: no obligation could be discharged -> nothing was explored, inconclusive")
         return 2
+    if n_ok * 2 < len(obligations):
+        print(f"{pid}: fewer than half of the obligations could be discharged; nothing explored violates the property (see the INCONCLUSIVE lines)")
     return 0
 
 
